@@ -1,6 +1,6 @@
 //verif:package github.com/kstenerud/go-concise-encoding/internal/verifh/c23
 //verif:config cap=300
-//verif:bounds quick: typed arrays uint8/uint16 of 2 elements (every bit symbolic), bit arrays <= 9 bits, strings/resource ids/custom text of 2 symbolic bytes (multi-byte UTF-8 lead/continuation bytes included), media and custom binary <= 3 bytes; thorough: also int16/uint32, 3 elements, 16 bits, 3-byte strings, map-value position; each re-chunked into 2 chunks at every element boundary and each chunk's bytes split into 2 data events at every byte (mid-element, mid-character); array as top-level value, list element and map value
+//verif:bounds quick: typed arrays uint8/uint16 of 2 elements (every bit symbolic), bit arrays <= 9 bits, strings/resource ids/custom text of 2 symbolic bytes (multi-byte UTF-8 lead/continuation bytes included), media and custom binary <= 3 bytes; thorough: also int16/uint32, 3 elements, 16 bits, 3-byte strings, map-value position; each re-chunked into 2 chunks at every element boundary and each chunk's bytes split into 2 data events at every byte (mid-element, mid-character); one chunk of 3 uint16 elements as 3 data events at every pair of split points; array as top-level value, list element and map value
 //verif:assume fmt.Sprintf on symbolic integers is the engine's model (self-test T00 proves it equal to strconv for all 8/16-bit values); float arrays (strconv float text) and decode-then-re-encode idempotence (ANTLR) are outside reach
 package c23
 
@@ -107,6 +107,34 @@ func Verif_C23_TypedArrays() {
 	verifrt.Assert(!rej1 && !rej2, "both deliveries are valid")
 	verifrt.Assert(len(whole) == len(split), "same text length however the array is chunked")
 	verifrt.Assert(verifrt.BytesEq(whole, split), "same text however the array is chunked and split")
+}
+
+// One chunk of 3 uint16 (thorough: also uint32) elements delivered as three
+// data events split at every pair of byte positions: a data event may both
+// complete an element begun by the previous one and end inside the next.
+func Verif_C23_ThreeDataEvents() {
+	at, esz := events.ArrayTypeUint16, 2
+	if verifrt.Thorough() && verifrt.Choice("wide", 2) == 1 {
+		at, esz = events.ArrayTypeUint32, 4
+	}
+	n := 3
+	data := verifrt.Bytes("d", n*esz)
+	d1 := verifrt.Choice("d1", n*esz-1) + 1 // 1..len-1
+	d2 := verifrt.Choice("d2", n*esz-d1) + d1 // d1..len-1
+	whole, rej1 := encode(wrap(0, func(r events.DataEventReceiver) { r.OnArray(at, uint64(n), data) }))
+	split, rej2 := encode(wrap(0, func(r events.DataEventReceiver) {
+		r.OnArrayBegin(at)
+		r.OnArrayChunk(uint64(n), false)
+		r.OnArrayData(data[:d1])
+		if d2 > d1 {
+			r.OnArrayData(data[d1:d2])
+		}
+		r.OnArrayData(data[d2:])
+	}))
+	verifrt.Reach("encoded")
+	verifrt.Assert(!rej1 && !rej2, "both deliveries are valid")
+	verifrt.Assert(len(whole) == len(split), "same text length however the chunk's bytes are delivered")
+	verifrt.Assert(verifrt.BytesEq(whole, split), "same text however the chunk's bytes are delivered")
 }
 
 func Verif_C23_BitArrays() {
